@@ -218,3 +218,62 @@ func VerifC07SpecialKeys(keys, l int) {
 	}
 	verifReach("end")
 }
+
+// VerifC07Header: the fixed header of the encoding as an independent RFC 2131 decoder reads it:
+// every field symbolic, hardware address of hlen bytes (0..16), names of snl / fl non-NUL bytes,
+// addresses in the forms selected by forms (base-3 digits, see verifIP); one option so that the
+// options area is not empty.
+func VerifC07Header(hlen, snl, fl, forms int) {
+	p := &DHCPv4{
+		OpCode:     OpcodeType(verifU8("op")),
+		HWType:     iana.HWType(verifU8("htype")),
+		HopCount:   verifU8("hops"),
+		NumSeconds: verifU16("secs"),
+		Flags:      verifU16("flags"),
+	}
+	xid := verifBytes("xid", 4)
+	copy(p.TransactionID[:], xid)
+	var wci, wyi, wsi, wgi []byte
+	p.ClientIPAddr, wci = verifIP("ciaddr", forms%3)
+	p.YourIPAddr, wyi = verifIP("yiaddr", forms/3%3)
+	p.ServerIPAddr, wsi = verifIP("siaddr", forms/9%3)
+	p.GatewayIPAddr, wgi = verifIP("giaddr", forms/27%3)
+	hw := verifBytes("chaddr", hlen)
+	p.ClientHWAddr = hw
+	sn := verifNonZeroBytes("sname", snl)
+	fn := verifNonZeroBytes("file", fl)
+	p.ServerHostName = string(sn)
+	p.BootFileName = string(fn)
+	p.Options = Options{53: []byte{verifU8("msgtype")}}
+	b := p.ToBytes()
+	verifObserve("encoded", b)
+	got, ok := refValidateEncoding(b)
+	if !ok {
+		return
+	}
+	verifAssert(len(got) == 1, "decoder-recovers-exactly-the-options")
+	h, hok := refParseHeader(b)
+	verifAssert(hok, "header-complete")
+	if !hok {
+		return
+	}
+	verifAssert(h.cookieOK, "magic-cookie")
+	verifAssert(h.op == byte(p.OpCode), "opcode-readable")
+	verifAssert(h.htype == byte(p.HWType), "htype-readable")
+	verifAssert(int(h.hlen) == hlen, "hlen-is-the-length-of-the-hardware-address")
+	verifAssert(verifSame(h.chaddr, hw), "chaddr-readable")
+	for i := 28 + hlen; i < 44; i++ {
+		verifAssert(b[i] == 0, "chaddr-padding-is-zero")
+	}
+	verifAssert(h.hops == p.HopCount, "hops-readable")
+	verifAssert(verifSame(h.xid[:], xid), "xid-readable")
+	verifAssert(h.secs == p.NumSeconds, "secs-readable")
+	verifAssert(h.flags == p.Flags, "flags-readable")
+	verifAssert(verifSame(h.ci[:], wci), "ciaddr-readable")
+	verifAssert(verifSame(h.yi[:], wyi), "yiaddr-readable")
+	verifAssert(verifSame(h.si[:], wsi), "siaddr-readable")
+	verifAssert(verifSame(h.gi[:], wgi), "giaddr-readable")
+	verifAssert(verifSame(h.sname, sn), "sname-readable")
+	verifAssert(verifSame(h.file, fn), "file-readable")
+	verifReach("end")
+}
